@@ -2,7 +2,7 @@
 # usage: tools/seed2.sh <ID> <C|D> <pkgdir> <run-regexp> [extra check ids...]
 # confirm a round-2 seed in its worktree, then run the property's check (and extra checks) against it
 id=$1; suf=$2; pkg=$3; run=$4; shift 4
-wt=/tmp/seed2/$id; d=$wt/_out/$id-$suf.diff; demo=$wt/_out/$id-${suf}_demo_test.go.txt
+wt=${SEEDBASE:-/tmp/seed3}/$id; d=$wt/_out/$id-$suf.diff; demo=$wt/_out/$id-${suf}_demo_test.go.txt
 echo "##### $id-$suf confirm"
 /verif/tools/seedconfirm.sh $wt $d $demo $pkg "$run" 2>&1 | grep -v '^{"level"' | tail -14
 for c in $id "$@"; do
